@@ -84,8 +84,13 @@ func (f *Typecase) Call(s *slip.Scope, args slip.List, depth int) (result slip.O
 }
 
 func typecaseMatch(sym slip.Symbol, key slip.Object) bool {
-	if strings.EqualFold("null", string(sym)) && key == nil {
-		return true
+	if key == nil {
+		// nil is the empty list and a symbol as well as the only object of type null.
+		switch strings.ToLower(string(sym)) {
+		case "null", "symbol", "list", "sequence", "t":
+			return true
+		}
+		return false
 	}
 	for _, h := range key.Hierarchy() {
 		if strings.EqualFold(string(h), string(sym)) {
